@@ -361,6 +361,13 @@ func ruleImplicitPanic(w *World, r *Run, rule string, reach map[*ssa.Function]bo
 					desc = descOperand(ev.Recv) + ".(" + ev.Callee + ")"
 					// what comes out of a sync.Pool is what its New function makes and what Put puts in: when every pool of the
 					// module is fed values of the asserted type only, the assertion cannot fail
+					// a method value taken from an interface value (s.M) is compiled as an assertion of s to its own type: a nil
+					// check, no different from the call s.M() itself
+					if ev.Recv != nil && ev.Recv.Typ != nil && typeStr(ev.Recv.Typ) == ev.Callee {
+						if _, isIface := ev.Recv.Typ.Underlying().(*types.Interface); isIface {
+							ok, why = true, "assertion of an interface value to its own type (method value)"
+						}
+					}
 					if ev.Recv != nil && ev.Recv.Kind == "call" && ev.Recv.Name == "(*sync.Pool).Get" {
 						if ts := poolElementTypes(w); len(ts) == 1 && ts[ev.Callee] {
 							ok, why = true, "every sync.Pool of the module is fed values of this type only (New and Put)"
